@@ -292,6 +292,13 @@ impl Sim {
             },
         };
         out.extend(sel.extra.iter().cloned());
+        for i in 0..sel.filler {
+            out.push(format!("{}", 7_000_000u64 + i as u64));
+        }
+        if let Some(pos) = sel.bad_at {
+            let pos = (pos as usize).min(out.len());
+            out.insert(pos, "not-an-ack-id".to_string());
+        }
         out
     }
 
@@ -785,14 +792,14 @@ impl Sim {
             Op::StreamOpen { slot, sub, max_msgs, max_bytes, policy } => {
                 self.stream_open(client, *slot, sub, *max_msgs, *max_bytes, policy.clone());
             }
-            Op::StreamSend { slot, ack, modack, modack_secs, raw_sub, raw_max_msgs, raw_max_bytes, extra_secs } => {
+            Op::StreamSend { slot, ack, modack, modack_secs, raw_sub, raw_max_msgs, raw_max_bytes, extra_secs, secs_pattern } => {
                 let sub = match self.streams.borrow().get(slot) {
                     Some(c) => c.sub.clone(),
                     None => return,
                 };
                 let acks = self.resolve(client, &sub, ack);
                 let modacks = self.resolve(client, &sub, modack);
-                let mut secs = vec![*modack_secs; modacks.len()];
+                let mut secs: Vec<i32> = if secs_pattern.is_empty() { vec![*modack_secs; modacks.len()] } else { (0..modacks.len()).map(|i| secs_pattern[i % secs_pattern.len()]).collect() };
                 secs.extend(extra_secs.iter().cloned());
                 let bad_id = |a: &String| a.is_empty() || !a.bytes().all(|b| b.is_ascii_digit()) || a.len() > 19;
                 let hostile = !raw_sub.is_empty() || *raw_max_msgs != 0 || *raw_max_bytes != 0 || !extra_secs.is_empty() || acks.iter().any(bad_id) || modacks.iter().any(bad_id) || secs.iter().any(|x| *x < 0);
@@ -1099,7 +1106,7 @@ impl Sim {
         self.step(c, &Step::new(Op::CreateSub { sub: s.clone(), topic: t.clone(), ack_deadline: 10, push: None })).await;
         self.step(c, &Step::new(Op::Publish { topic: t.clone(), msgs: vec![MsgSpec { data: 1, attrs: 1 }] })).await;
         self.step(c, &Step::new(Op::Pull { sub: s.clone(), max: 10, immediate: true })).await;
-        self.step(c, &Step::new(Op::Ack { sub: s.clone(), sel: Sel { mine: true, pick: Pick::All, extra: vec![] } })).await;
+        self.step(c, &Step::new(Op::Ack { sub: s.clone(), sel: Sel { mine: true, pick: Pick::All, ..Sel::none() } })).await;
         // Existing resources must still be served: publish to every topic name we used, and
         // pull every subscription name we used (NOT_FOUND is a fine answer for deleted ones).
         let topics: Vec<String> = self.known_topics.borrow().iter().cloned().collect();
